@@ -96,6 +96,22 @@ def status_class(year):
     return E.filing_status_2021 if year == 2021 else E.filing_status
 
 
+def native_threshold_twice(fobj, tname, members):
+    """Concretisation: the real Form.threshold asked twice for every member of the enumeration."""
+    ecls = next((type(m) for m in members if isinstance(m, _enum.Enum)), None)
+    runs, bad = [], False
+    if ecls is None:
+        return {'reproduced': False}
+    for sweep in (1, 2):
+        for m in ecls:
+            try:
+                runs.append({'sweep': sweep, 'status': m.name, 'returned': repr(fobj.threshold(tname, m))})
+            except BaseException as ex:
+                runs.append({'sweep': sweep, 'status': m.name, 'raised': type(ex).__name__})
+                bad = True
+    return {'reproduced': bad, 'kind': 'threshold-twice', 'runs': runs[:12]}
+
+
 def threshold_obs(year, fobj, tname, table, cf):
     obs = []
     keys = list(table.keys())
@@ -104,6 +120,14 @@ def threshold_obs(year, fobj, tname, table, cf):
         members.extend(k if isinstance(k, tuple) else [k])
     ecls = {type(m) for m in members}
     oid = f'C17/{year}/{fobj.name()}/threshold={tname}'
+    odd = [k for k in keys if not (isinstance(k, _enum.Enum) or (isinstance(k, tuple) and k and all(isinstance(x, _enum.Enum) for x in k)))]
+    if odd and any(isinstance(m, _enum.Enum) for m in members):
+        # a key that is neither a member nor a tuple of members (a generator, a list, a set ...): `status in key` consumes or re-orders it,
+        # so the table is not a map from statuses to amounts
+        obs.append(Ob(id=oid + '/keys-are-members-or-tuples-of-members', status=oblig.REFUTED, backend='ground-eval', function=cf,
+                      clause=f'NOT: every key of threshold table {tname!r} is a member or a tuple of members of one enumeration: {[type(k).__name__ for k in odd]}',
+                      witness={'table': tname, 'key_types': [type(k).__name__ for k in odd]}, replay=native_threshold_twice(fobj, tname, members)))
+        return obs
     if len(ecls) != 1 or not issubclass(next(iter(ecls)), _enum.Enum):
         return obs
     ecls = next(iter(ecls))
